@@ -244,15 +244,22 @@ class _Dialect(type):
             pass
 
     @classmethod
+    def _is_initializing(cls, key: str) -> bool:
+        # The class is registered while its module body is still running (possibly in another thread);
+        # importing the module again blocks on importlib's per-module lock until the body has finished.
+        module = sys.modules.get(f"sqlglot.dialects.{key}")
+        return getattr(getattr(module, "__spec__", None), "_initializing", False)
+
+    @classmethod
     def __getitem__(cls, key: str) -> Type[Dialect]:
-        if key not in cls._classes:
+        if key not in cls._classes or cls._is_initializing(key):
             cls._try_load(key)
 
         return cls._classes[key]
 
     @classmethod
     def get(cls, key: str, default: Type[Dialect] | None = None) -> Type[Dialect] | None:
-        if key not in cls._classes:
+        if key not in cls._classes or cls._is_initializing(key):
             cls._try_load(key)
 
         return cls._classes.get(key, default)
@@ -260,7 +267,6 @@ class _Dialect(type):
     def __new__(cls, clsname, bases, attrs):
         klass = super().__new__(cls, clsname, bases, attrs)
         enum = Dialects.__members__.get(clsname.upper())
-        cls._classes[enum.value if enum is not None else clsname.lower()] = klass
 
         klass.TIME_TRIE = new_trie(klass.TIME_MAPPING)
         klass.FORMAT_TRIE = (
@@ -356,6 +362,9 @@ class _Dialect(type):
             *klass.DATE_PART_MAPPING.keys(),
             *klass.DATE_PART_MAPPING.values(),
         }
+
+        # Register the class only once it is fully configured: other threads look it up in _classes.
+        cls._classes[enum.value if enum is not None else clsname.lower()] = klass
 
         return klass
 
